@@ -122,8 +122,11 @@ func stripFraming(h http.Header) http.Header {
 }
 
 func headOfReq(r *http.Request, readBody bool) head {
+	hdr := stripFraming(r.Header)
+	// a Host key in a request's header map is never sent (net/http writes the Host field)
+	delete(hdr, "Host")
 	h := head{line: fmt.Sprintf("%s %s HTTP/%d.%d", r.Method, r.URL, r.ProtoMajor, r.ProtoMinor), host: r.Host,
-		cl: r.ContentLength, te: strings.Join(r.TransferEncoding, ","), hdr: msggen.SortedKV(stripFraming(r.Header))}
+		cl: r.ContentLength, te: strings.Join(r.TransferEncoding, ","), hdr: msggen.SortedKV(hdr)}
 	if readBody {
 		if r.Body != nil {
 			b, err := io.ReadAll(r.Body)
@@ -216,6 +219,10 @@ func (e *ex) Do(op string) core.Result {
 		return twin(t, false)
 	case "twinx":
 		return twin(t, true)
+	case "twinm":
+		return twinMarks(t)
+	case "multi":
+		return multi(t)
 	}
 	return core.Result{Impl: "bad-op"}
 }
@@ -409,7 +416,22 @@ func HarOpt(post bool, spec string) har.Option { return harOpt(post, spec) }
 // twinx <logger> <o1> <o2> <skiplog> <mode> <trusted> M...: the same experiment; the op carries the
 // verdicts of the trusted parsers / decompressors on the body (TrustedTok), with which the model
 // also predicts whether the logger returns an error and whether it recorded anything then.
-func twin(t []string, x bool) core.Result {
+func twin(t []string, x bool) core.Result { return twinOpt(t, x, nil) }
+
+// twinm <logger> <o1> <o2> <marks> <mode> <trusted> M...: twinx with the context flag operations of
+// the exchange spelled out (see marks.go) instead of the 0/1 skip-logging token.
+func twinMarks(t []string) core.Result {
+	if len(t) != 7+msggen.NTok {
+		return core.Result{Impl: "bad-op"}
+	}
+	mk, ok := parseMarks(t[4])
+	if !ok {
+		return core.Result{Impl: "bad-op"}
+	}
+	return twinOpt(t, true, mk)
+}
+
+func twinOpt(t []string, x bool, mk *marks) core.Result {
 	n0 := 6
 	if x {
 		n0 = 7
@@ -453,6 +475,21 @@ func twin(t []string, x bool) core.Result {
 	defer remove()
 	if skiplog {
 		ctx.SkipLogging()
+	}
+	if mk != nil {
+		skiplog = mk.skips(a.Req)
+		// the request side of the exchange: marks made before any logger sees the request
+		for _, c := range mk.pre {
+			applyMark(c, ctxReq)
+			if reqB != nil {
+				// the unlogged twin goes through the same modifiers (api.Forwarder rewrites the URL)
+				_, rm, err := martian.TestContext(reqB, nil, nil)
+				if err == nil {
+					defer rm()
+				}
+				applyMark(c, reqB)
+			}
+		}
 	}
 
 	rec := 0
@@ -536,6 +573,12 @@ func twin(t []string, x bool) core.Result {
 			// (the flag may be set by a modifier that runs after the logger saw the request)
 			harLog.RecordRequest(ctx.ID(), ctxReq)
 		}
+		if mk != nil {
+			// the response side: marks made between the two logger calls
+			for _, c := range mk.post {
+				applyMark(c, ctxReq)
+			}
+		}
 		modErr = mods.res(resA)
 		werrA = resA.Write(&outA)
 		werrB = resB.Write(&outB)
@@ -554,6 +597,10 @@ func twin(t []string, x bool) core.Result {
 	if modErr != nil {
 		core.Count("twin:logger-error:" + logger)
 	}
+	if mk != nil {
+		impl += " flags=" + flagsTok(ctx)
+		core.Count("marks:" + mk.class())
+	}
 	if d := forwardedDiff(a.Req, outA.Bytes(), outB.Bytes(), werrA, werrB); d != "" {
 		r := fail("c15:forwarded-differs:"+logger, "forwarded message differs from unlogged twin: %s", d)
 		r.Impl = "differs"
@@ -562,6 +609,11 @@ func twin(t []string, x bool) core.Result {
 	if d := hA.diff(hB); d != "" {
 		r := fail("c15:fields-differ:"+logger, "message fields after logging differ from unlogged twin: %s", d)
 		r.Impl = "differs"
+		return r
+	}
+	if mk != nil && mk.skipsAnywhere() && !ctx.SkippingLogging() {
+		r := fail("c15:skip-mark-lost", "the exchange was marked skip-logging %d time(s) (marks %s) but its context reads SkippingLogging() = false", mk.count(), mk.tok)
+		r.Impl = impl
 		return r
 	}
 	if skiplog && rec != 0 && logger != "snapshot" {
